@@ -9,8 +9,11 @@ python3 - <<'PY'
 import sys
 sys.path.insert(0, '.')
 from nsa.facts import extract
+import os
 for prof in ('dev', 'rel'):
     f = extract(prof)
     print('warm', prof, len(f['bodies']), 'bodies', f['_meta']['extract_s'], 's')
+f = extract('dev', repo=os.path.join(os.getcwd(), 'fixtures'), crate='nsfix', floor=12)
+print('warm fixtures', len(f['bodies']), 'bodies')
 PY
 echo setup ok
